@@ -229,6 +229,19 @@ def oracleC08 (cfg : Cfg) (bytes : List Nat) (d : Dump) : List String :=
   let forkMax := (d.forks.map (·.2)).foldl max 0
   let within := d.ok && exact && acyclic bytes rs && forkMax < cfg.forkLimit && cfg.iterLimit ≥ 1
   let missing := if within then reachable.filter (fun i => !executed.contains i) else []
+  -- a jump whose target is pushed right before it and is not a valid EVM destination must not
+  -- transfer control: in strict mode the error list names it
+  let badJumps := (List.range bytes.length).filter (fun i =>
+    !(mask.getD i false) && (bytes.getD i 0 == 0x56 || bytes.getD i 0 == 0x57) &&
+    d.vis.any (fun v => v.getD i 0 > 0) &&
+    (match pushedBefore bytes mask i with
+     | some t => !(validDest bytes mask t)
+     | none => false))
+  let unreported := if cfg.permissive then [] else
+    badJumps.filter (fun i => !(d.errs.any (fun (l, n) => l == i && isJumpKindName n)) &&
+      -- (a thread that was out of stack or gas at that jump reports that instead)
+      !(d.errs.any (fun (l, _) => l == i)))
+  (if !unreported.isEmpty then [s!"C08-invalid-jump-accepted:offset {unreported.head!}"] else []) ++
   (if !extra.isEmpty then [s!"C08-executed-unreachable:offset {extra.head!}"] else []) ++
   (if !missing.isEmpty then [s!"C08-reachable-not-executed:offset {missing.head!}"] else [])
 
